@@ -418,8 +418,20 @@ def coerce_hint_any(hint: Hint) -> Hint:
         #FIXME: [SPEED] Globalize the
         #_hint_repr_to_hint.cache_or_get_cached_value() bound method and call
         #that globalized bound method here instead as a negligible speedup.
-        hint = _hint_repr_to_hint.cache_or_get_cached_value(  # type: ignore[return-value]
+        hint_cached = _hint_repr_to_hint.cache_or_get_cached_value(
             key=get_hint_repr(hint), value=hint)
+
+        # If the hint cached under this representation is equal to this hint
+        # (the common case), replace this hint by that hint.
+        #
+        # Else, two unequal hints share the same representation (e.g.,
+        # "list[Model]" and "Model | None" for two distinct classes, new types,
+        # or type aliases that happen to share the same fully-qualified name,
+        # as produced by class factories, function-local classes, and module
+        # reloads). In this case, preserve this hint as is. Replacing this hint
+        # by that unrelated hint would type-check against the wrong type.
+        if hint_cached == hint:
+            hint = hint_cached  # type: ignore[assignment]
     # Else, this hint is (hopefully) self-caching.
 
     # ..................{ RETURN                             }..................
